@@ -367,9 +367,11 @@ impl PayloadHistory {
             // the target serial the caller has. So we can skip over anything
             // smaller.
             match delta.serial().partial_cmp(&serial) {
-                Some(cmp::Ordering::Greater) => return None,
+                // A serial that cannot be compared to one of ours (it is
+                // exactly 2^31 away) is not one we have ever issued.
+                Some(cmp::Ordering::Greater) | None => return None,
                 Some(cmp::Ordering::Equal) => break,
-                _ => continue
+                Some(cmp::Ordering::Less) => continue
             }
         }
 
